@@ -459,6 +459,16 @@ pub fn check_type(rep: &mut Report, name: &str, got: &zlink_core::idl::Type<'_>,
     } else {
         rep.count("type_descriptions_ok");
         rep.sample(8, || json!({"item": name, "derived_type": format!("{got}")}));
+        // an interface assembled from the derived type (as a field of a type, as a parameter and as a
+        // result of a method) must render to text that parses back to an equal description
+        use zlink_core::idl;
+        let f = |n: &'static str| idl::Field::new_owned(n, got.clone(), vec![]);
+        let wrap = idl::CustomType::from(idl::CustomObject::new_owned("Wrap", vec![f("v")], vec![]));
+        let method = idl::Method::new_owned("Use", vec![f("v")], vec![f("r")], vec![]);
+        let i = idl::Interface::new_owned("org.example.derived", vec![method], vec![wrap], vec![], vec![]);
+        let mut tree = from_iface(&i);
+        normalise(&mut tree);
+        roundtrip(rep, name, &i, &tree);
     }
 }
 
@@ -545,7 +555,13 @@ fn roundtrip(rep: &mut Report, name: &str, i: &zlink_core::idl::Interface<'_>, t
         Err(p) => rep.violation("C16/parsing-a-derived-description-panics", format!("{name}: {p}; text {text:?}"), replay),
         Ok(Err(e)) => {
             let commented_variant = tree.members.iter().any(|m| matches!(m, GMember::Type { body: GBody::Enum(vs), .. } if vs.iter().any(|v| !v.comments.is_empty())));
-            let sig = if commented_variant { "C16/rendered-derived-description-does-not-parse:enum-with-commented-variant" } else { "C16/rendered-derived-description-does-not-parse" };
+            let sig = if commented_variant {
+                "C16/rendered-derived-description-does-not-parse:enum-with-commented-variant"
+            } else if has_commented_inline_enum(tree) {
+                "C16/rendered-derived-description-does-not-parse:inline-enum-with-commented-variant"
+            } else {
+                "C16/rendered-derived-description-does-not-parse"
+            };
             rep.violation(sig, format!("{name}: {e}; text {text:?}"), replay)
         }
         Ok(Ok((mut parsed, lib_eq))) => {
@@ -564,6 +580,24 @@ fn roundtrip(rep: &mut Report, name: &str, i: &zlink_core::idl::Interface<'_>, t
             }
         }
     }
+}
+
+/// Does any field / parameter type of the description contain an inline enum with a commented variant.
+fn has_commented_inline_enum(i: &GIface) -> bool {
+    fn ty(t: &GTy) -> bool {
+        match t {
+            GTy::Optional(i) | GTy::Array(i) | GTy::Map(i) => ty(i),
+            GTy::Enum(vs) => vs.iter().any(|v| !v.comments.is_empty()),
+            GTy::Struct(fs) => fs.iter().any(|f| ty(&f.ty)),
+            _ => false,
+        }
+    }
+    i.members.iter().any(|m| match m {
+        GMember::Type { body: GBody::Struct(fs), .. } => fs.iter().any(|f| ty(&f.ty)),
+        GMember::Type { .. } => false,
+        GMember::Method { inputs, outputs, .. } => inputs.iter().chain(outputs.iter()).any(|f| ty(&f.ty)),
+        GMember::Error { fields, .. } => fields.iter().any(|f| ty(&f.ty)),
+    })
 }
 
 fn strip_inline_comments(i: &mut GIface) {
